@@ -18,7 +18,7 @@ var schemaNames = []string{"Bar", "Node", "Tree", "Leaf", "Item", "Thing", "Widg
 var fieldNames = []string{"name", "fooId", "barID", "x", "a1", "foo_bar", "createdAt", "isOK", "id", "nodeId", "itemCount", "v2Field", "q", "child", "children", "parent", "items", "value", "kind", "status", "owner", "ref", "note", "amount", "when", "data2", "httpCode", "b"}
 var serviceNames = []string{"Foo", "Bar", "Admin", "Thing", "Widget", "Report", "FooQuery", "FooCommand", "X"}
 var methodNames = []string{"GetFoo", "ListFoos", "CreateFoo", "UpdateFoo", "DeleteFoo", "PatchFoo", "Download", "Search", "Get", "Put", "Do", "RunX", "A", "ListNodes", "ListItems", "FooBar"}
-var topicNames = []string{"Ping", "Notify", "Work", "FooEvents2", "Audit", "Sync"}
+var topicNames = []string{"Ping", "Notify", "Work", "FooEvents2", "Audit", "Sync", "fooBar", "foo_bar", "HTTPPing", "pingV2"}
 var msgNames = []string{"Hello", "Bye", "Started", "Done", "Failed", "Tick"}
 var enumOpts = []string{"RED", "BLUE", "GREEN", "ONE", "TWO", "ACTIVE", "INACTIVE", "A", "B", "LONG_NAME", "X1"}
 var literalSegs = []string{"foo", "bar", "v1", "items", "x", "foo-bar", "foo_bar", "a.b", "Q", "123", "nodes", "by-id", "sub"}
